@@ -57,14 +57,24 @@ Proof.
 Qed.
 Print Assumptions C07_plain_archive_reproduced.
 
-(* the streaming extractor's file phase builds the same tree (contents and structure; it applies the modes in a
-   second phase from the central records, which is not covered by this theorem) *)
+(* the streaming extractor's file phase builds the same tree (contents and structure; the modes follow in its
+   second phase, see C07_stream_archive_reproduced) *)
 Theorem C07_stream_files_reproduced : forall umask root t0 lg0 items,
   (forall rel, rel <> [] -> lookup t0 (root ++ rel) = None) ->
   ForallOrdPairs compat items -> Forall (fun x => plain (path_of x)) items ->
   exists t' lg', sextract_files umask root (t0, lg0) (map entry_of items) = ((t', lg'), XOk) /\ tree_ok root t' (map strip_mode items).
 Proof. exact sextract_plain_files. Qed.
 Print Assumptions C07_stream_files_reproduced.
+
+(* both phases of the streaming extractor: files (no modes), then one chmod per central record, in the same order *)
+Theorem C07_stream_archive_reproduced : forall umask root t0 lg0 items,
+  (forall rel, rel <> [] -> lookup t0 (root ++ rel) = None) ->
+  ForallOrdPairs compat items -> Forall (fun x => plain (path_of x)) items ->
+  exists t1 lg1 t' lg',
+    sextract_files umask root (t0, lg0) (map entry_of items) = ((t1, lg1), XOk) /\
+    sextract_metas root (t1, lg1) (map meta_of items) = ((t', lg'), XOk) /\ tree_ok root t' items.
+Proof. exact sextract_plain_archive. Qed.
+Print Assumptions C07_stream_archive_reproduced.
 
 (* the hypotheses are met: file "a/b" (mode 0o640) and directory "d/" into an empty target *)
 Example C07_plain_nonvacuous :
